@@ -62,11 +62,20 @@ def cases(seed, tier):
             {"gen": "ff", "kind": "hinge", "seed": 1741156018, "order": 4, "elements": "vertices", "features": True, "n_smooth": 1, "cotan": True, "max_size": 4},
             # crease ending on a straight border, order 2 (K-C18-5)
             {"gen": "ff", "kind": "hinge", "seed": 1197765174, "order": 2, "elements": "vertices", "features": True, "n_smooth": 0, "cotan": False, "max_size": 7, "keep_ears": False}]
+    # the option axes are drawn independently (index arithmetic with the periods 8, 8, 2 used before tied the mesh kind to the order and to
+    # the element type: symmetric grids, for instance, only ever met orders 3 and 4 on vertices); every (kind, order, elements) triple is
+    # also visited systematically
+    kinds = ["disk", "disk", "hinge", "closed", "annulus", "disk", "grid", "polar"]
+    triples = [(k, o, e) for k in sorted(set(kinds)) for o in (1, 2, 3, 4, 5, 6) for e in ("vertices", "faces")]
+    rng.shuffle(triples)
     for i in range(n):
-        kind = ["disk", "disk", "hinge", "closed", "annulus", "disk", "grid", "polar"][i % 8]
-        out.append({"gen": "ff", "kind": kind, "seed": rng.randrange(2 ** 31), "order": [4, 1, 2, 3, 4, 5, 6, 4][(i // 2) % 8],
-                    "elements": ["vertices", "faces"][i % 2], "features": kind == "hinge" or (i % 5 == 0),
-                    "n_smooth": [0, 0, 1, 3][(i // 3) % 4], "cotan": (i // 4) % 3 != 0, "max_size": 4 if tier == "quick" else 7, "keep_ears": i % 9 == 0})
+        if i < len(triples) or tier != "quick":
+            kind, order, elements = triples[i % len(triples)]
+        else:
+            kind, order, elements = rng.choice(kinds), rng.choice([4, 1, 2, 3, 4, 5, 6, 4]), rng.choice(["vertices", "faces"])
+        out.append({"gen": "ff", "kind": kind, "seed": rng.randrange(2 ** 31), "order": order,
+                    "elements": elements, "features": kind == "hinge" or rng.random() < 0.2,
+                    "n_smooth": rng.choice([0, 0, 1, 3]), "cotan": rng.random() < 0.67, "max_size": 4 if tier == "quick" else 7, "keep_ears": rng.random() < 0.11})
     return out
 
 
